@@ -58,6 +58,23 @@ impl CaseOut {
             self.classes.push(k);
         }
     }
+    /// fold another case's observations into this one
+    pub fn merge(&mut self, o: CaseOut) {
+        self.evals += o.evals;
+        for c in o.classes {
+            self.class(c);
+        }
+        for (k, n) in o.counters {
+            self.count(&k, n);
+        }
+        if self.sample.is_none() {
+            self.sample = o.sample;
+        }
+        for v in o.violations {
+            self.violate(v);
+        }
+        self.harness_errors.extend(o.harness_errors);
+    }
     pub fn violate(&mut self, v: Violation) {
         // keep at most a handful per case
         if self.violations.len() < 8 && !self.violations.iter().any(|x| x.sig == v.sig) {
